@@ -82,6 +82,48 @@ def diff_tables(a_action, a_goto, a_prods, b_action, b_goto, b_prods, limit=4):
     return diffs, n
 
 
+def declared_productions(pkg_root):
+    """the grammar as it is WRITTEN: every alternative of every p_* docstring of every class in the package's source files (read with ast,
+    nothing imported) -> {"lhs -> rhs": [where declared]}.  PLY only sees what reflection on the parser object finds; a rule function that is
+    overwritten by a later def of the same name, or whose class fell out of the parser's bases, is written but never reaches the tables."""
+    import ast
+    out = {}
+    for dp, _dn, fn in os.walk(os.path.join(pkg_root, "simple_ddl_parser")):
+        for f in fn:
+            if not f.endswith(".py") or f == "parsetab.py":
+                continue
+            path = os.path.join(dp, f)
+            try:
+                tree = ast.parse(open(path).read())
+            except SyntaxError:
+                continue
+            for node in ast.walk(tree):
+                if not isinstance(node, ast.ClassDef):
+                    continue
+                for item in node.body:
+                    if not (isinstance(item, ast.FunctionDef) and item.name.startswith("p_") and item.name != "p_error"):
+                        continue
+                    doc = ast.get_docstring(item, clean=False)
+                    if not doc:
+                        continue
+                    lhs = None
+                    for line in doc.splitlines():
+                        line = line.strip()
+                        if not line:
+                            continue
+                        if ":" in line and not line.startswith("|"):
+                            lhs, rhs = line.split(":", 1)
+                            lhs = lhs.strip()
+                        elif line.startswith("|") and lhs:
+                            rhs = line[1:]
+                        else:
+                            continue
+                        for alt in rhs.split("|"):
+                            prod = "%s -> %s" % (lhs, " ".join(alt.split()) or "<empty>")
+                            out.setdefault(prod, []).append("%s:%d %s.%s" % (os.path.relpath(path, pkg_root), item.lineno, node.name, item.name))
+    return out
+
+
 def main(argv):
     pkg_root, cases_file, out_file = argv[:3]
     unwritable = "unwritable" in argv[3:]
@@ -193,6 +235,16 @@ def main(argv):
         live = getattr(p, "yacc", None)
         if live is None or not hasattr(live, "action"):
             res["live_unobservable"] = "parser object has no .yacc LR parser"
+        # ------------------------------------------------------------ the grammar as written in the source vs the productions in use
+        if live is not None and hasattr(live, "productions"):
+            try:
+                dec = declared_productions(pkg_root)
+                inuse = set(str(x) for x in live.productions[1:])
+                res["declared_vs_live"] = {"declared": len(dec), "in_use": len(inuse),
+                                           "written_but_not_in_use": [{"production": k, "declared_at": dec[k][:2]} for k in sorted(set(dec) - inuse)][:8],
+                                           "in_use_but_not_written": sorted(inuse - set(dec))[:8]}
+            except Exception as e:
+                res["declared_vs_live"] = {"error": "%s: %s" % (type(e).__name__, str(e)[:200])}
         # ------------------------------------------------------------ fresh generation (reference)
         phase[0] = "fresh"
         a, kw = lib_calls[-1] if lib_calls else ((), {"module": p, "debug": False})
